@@ -5,6 +5,7 @@
   spec: WR/C16/Spec.lean (CSS 2.1 Appendix E, layer by layer).
 -/
 import WR.C16.Lemmas
+import WR.C16.LemmasOrder
 set_option linter.unusedSimpArgs false
 namespace WR.Props.C16
 open WR.C16
@@ -86,51 +87,65 @@ theorem box_layers_order (id : Nat) (p : Bool) (z : Option Int) (f c ib hl : Boo
   simp only [ctxOfBox, finishCtx, Box.blockLevel, Box.inlineBlock, Box.id, Bool.true_or]
   exact drawCtx_shape _ _ _ _ _ _ _
 
-/-! ## model versus Appendix E
+/-! ## model versus Appendix E -/
 
-  Full statement — FALSE on the current code:
+/-- The headline: for every box tree and every assignment of position / z-index / float / opacity-
+    transform-overflow / block-level / inline content, the paint order produced by the model of
+    stacking.go (single-pass dispatch with insert-at-remembered-index, partition by sign, stable sort,
+    drawStackingContext's steps) IS the CSS 2.1 Appendix E order of the spec (per-layer traversals;
+    z-index read on positioned boxes only). -/
+theorem paint_order_respects_E (root : Box) : paintOrder root = specOrder root := by
+  cases root with
+  | mk id p z f c bl ib hl children =>
+    simp only [paintOrder, specOrder]
+    rw [ctx_none_of id p z f c bl ib hl children (dispatchChildren_eq children)]
 
-    theorem paint_order_respects_E (root : Box) : paintOrder root = specOrder root
+/-- the sub-contexts found inside a float / positioned z-index:auto box are handed to the enclosing real
+    context, in tree order, after the ones found before it -/
+theorem pseudo_context_lifts (b : Box) (cc : List CCtx) :
+    ctxOfBox b (some cc) = (specPseudo b, cc ++ participants b.children) := by
+  cases b with
+  | mk id p z f c bl ib hl children =>
+    exact ctx_some_of id p z f c bl ib hl children cc (dispatchChildren_eq children)
 
-  stacking.go reads z-index on every box that forms a context (NewStackingContext: `self.zIndex =
-  zIndex.Int`), CSS 2.1 9.9.1 / CSS Color 3 (opacity) say it applies to positioned boxes only: a
-  non-positioned box with `opacity:0.5; z-index:2` is painted above a positioned `z-index:1` sibling
-  instead of below it.  Negation witness (the same document is replayed against the real renderer by the
-  harness: known finding KF16-1): -/
-
-/-- b1: position:relative; z-index:1 — b2: opacity:0.5; z-index:2 (not positioned) -/
+/-- The document that used to be the negation witness (z-index was honoured on a non-positioned opacity
+    box; repaired in /repo a96a4f9; the same document is a first-run corpus case of the harness):
+    b1: position:relative; z-index:1 — b2: opacity:0.5; z-index:2 (not positioned). -/
 def witness : Box :=
   .mk 0 false none false false true false false
     [.mk 1 true (some 1) false false true false true [], .mk 2 false (some 2) false true true false true []]
 
-theorem witness_model : paintOrder witness =
-    [(0, .background), (0, .border), (1, .background), (1, .border), (1, .content), (1, .outline),
-     (2, .background), (2, .border), (2, .content), (2, .outline), (0, .outline)] := by
-  simp [witness, paintOrder, ctxOfBox, dispatchChildren, dispatch, finishCtx, drawCtx, Box.makesContext, Box.zIndex,
-    Box.positioned, Box.z, Box.ctx, Box.id, Box.blockLevel, Box.inlineBlock, Box.hasLines, sortZ, insertZ]
-
 theorem witness_spec : specOrder witness =
     [(0, .background), (0, .border), (2, .background), (2, .border), (2, .content), (2, .outline),
      (1, .background), (1, .border), (1, .content), (1, .outline), (0, .outline)] := by
-  simp [witness, specOrder, specReal, specPseudo, participants, flowBlocks, floatsOf, flowLines, Box.inFlow, Box.zFor,
+  simp [witness, specOrder, specReal, specPseudo, participants, flowBlocks, floatsOf, flowLines, Box.inFlow,
     Box.specZ, Box.makesContext, Box.zIndex, Box.positioned, Box.z, Box.ctx, Box.floated, Box.id, Box.blockLevel,
     Box.inlineBlock, Box.hasLines, sortZ, insertZ]
 
-theorem paint_order_respects_E_false : paintOrder witness ≠ specOrder witness := by
-  rw [witness_model, witness_spec]; decide
+/-- b2 (layer 8: z-index does not apply) is now painted before b1 (layer 9) by the model too -/
+theorem witness_model : paintOrder witness =
+    [(0, .background), (0, .border), (2, .background), (2, .border), (2, .content), (2, .outline),
+     (1, .background), (1, .border), (1, .content), (1, .outline), (0, .outline)] := by
+  rw [paint_order_respects_E, witness_spec]
 
-/- What remains (not proved for all trees, searched on every generated tree in the correspondence
-   runs: `corr:model-vs-spec` compares the two functions on the implementation's laid-out trees):
-
-    theorem paint_order_respects_E_partial (root : Box) : paintOrder root = specOrderQ root
-
-   (Appendix E with stacking.go's reading of z-index).  Missing: the induction relating the single-pass
-   dispatch with its insert-at-remembered-index updates to the per-layer traversals of the spec. -/
-
-/-- with stacking.go's reading of z-index the two functions agree on the witness -/
-example : paintOrder witness = specOrderQ witness := by
-  rw [witness_model]
-  simp [witness, specOrderQ, specReal, specPseudo, participants, flowBlocks, floatsOf, flowLines, Box.inFlow, Box.zFor,
+/-- non-vacuity of the layers: negative / positive contexts with a tie, a positioned z-index:auto box holding a
+    negative-z context (lifted to the root context), a float, nested in-flow blocks -/
+example : specOrder (.mk 0 false none false false true false false
+    [.mk 1 true (some 2) false false true false true [],
+     .mk 2 true none false false true false false [.mk 3 true (some (-1)) false false true false true []],
+     .mk 4 false none true false true false true [],
+     .mk 5 false none false false true false false [.mk 6 false none false false true false true []],
+     .mk 7 true (some 2) false false true false true []])
+  = [(0, .background), (0, .border),
+     (3, .background), (3, .border), (3, .content), (3, .outline),
+     (5, .background), (5, .border), (6, .background), (6, .border),
+     (4, .background), (4, .border), (4, .content), (4, .outline),
+     (6, .content),
+     (2, .background), (2, .border), (2, .outline),
+     (1, .background), (1, .border), (1, .content), (1, .outline),
+     (7, .background), (7, .border), (7, .content), (7, .outline),
+     (0, .outline)] := by
+  simp [specOrder, specReal, specPseudo, participants, flowBlocks, floatsOf, flowLines, Box.inFlow,
     Box.specZ, Box.makesContext, Box.zIndex, Box.positioned, Box.z, Box.ctx, Box.floated, Box.id, Box.blockLevel,
     Box.inlineBlock, Box.hasLines, sortZ, insertZ]
 
